@@ -156,6 +156,16 @@ def fam_timing(seed, n_random, big):
                   "ops": [["wait_timeout", d], ["poll"], ["wait_timeout", d], ["kill"], ["wait"]], "drop": True, "overshoot": 0}
             i += 1
             out.append(sc)
+    # signals keep interrupting the sleeps between two status checks (a sampling profiler, an interval timer): the time
+    # already slept counts, the call still reports the exit / the expiry when it is due
+    for slice_ in (MS, 5 * MS, 30 * MS):
+        for d, e in ((300 * MS, None), (2 * S, 300 * MS), (2 * S, None), (150 * MS, 149 * MS), (700 * MS, 2 * S)):
+            sc = {"id": "t%d" % i, "exit": {"k": "exited", "v": 6, "at": e}, "sleep_slice": slice_, "sleep_eintr_max": 600,
+                  "ops": [["wait_timeout", d], ["poll"], ["wait_timeout", d]], "drop": True, "overshoot": 0}
+            if e is None or e > d:
+                sc["ops"] += [["kill"], ["wait"]]
+            i += 1
+            out.append(sc)
     for d in huge:
         for e in (None, 0, 2 * S, d // 2, d - 1, d):
             if e is None and not big:
